@@ -1,5 +1,6 @@
 import KyberModel.Lib.TwistModel
 import KyberModel.Lib.TwistFacts
+import KyberModel.Lib.TwistFactsBls
 import KyberModel.Lib.Primes
 /-
 BN256 and BN254 G2: the executable twist models satisfy the side conditions of `Lib/TwistModel.lean`
@@ -10,6 +11,8 @@ open Kyber Kyber.TwistModel Kyber.TwistFacts
 
 instance bn256_prime : Fact (Nat.Prime BN256.twist.p) := ⟨BN256.p_prime⟩
 instance bn254_prime : Fact (Nat.Prime BN254.twist.p) := ⟨BN254.p_prime⟩
+instance blsg2_prime : Fact (Nat.Prime BLS12381.twist.p) := ⟨BLS12381.p_prime⟩
+instance blsg2_34 : Fact (BLS12381.twist.p % 4 = 3) := ⟨bls_p34⟩
 instance bn256_34 : Fact (BN256.twist.p % 4 = 3) := ⟨bn256_p34⟩
 instance bn254_34 : Fact (BN254.twist.p % 4 = 3) := ⟨bn254_p34⟩
 
@@ -23,6 +26,8 @@ theorem castEl_ne_zero {p : Nat} {b : Fp2.El} (h : ¬ (b.1 % p = 0 ∧ b.2 % p =
 
 theorem bn256_good : Good BN256.twist := ⟨bn256_gt3, castEl_ne_zero bn256_b_ne⟩
 theorem bn254_good : Good BN254.twist := ⟨bn254_gt3, castEl_ne_zero bn254_b_ne⟩
+
+theorem blsg2_good : Good BLS12381.twist := ⟨bls_gt3, castEl_ne_zero bls_b_ne⟩
 
 theorem valid_of_facts {c : Fp2.Curve} {P : Fp2.Pt} (hr : reducedPt c.p P = true) (ho : Fp2.onCurve c P = true) :
     Valid c P := by
@@ -39,6 +44,9 @@ theorem bn256_base_valid : Valid BN256.twist bn256BaseLit :=
 theorem bn254_base_valid : Valid BN254.twist bn254BaseLit :=
   valid_of_facts (c := BN254.twist) (P := bn254BaseLit) (by rw [← bn254_base_eq]; exact bn254_base_reduced)
     (by rw [← bn254_base_eq]; exact bn254_base_on)
+
+theorem blsg2_base_valid : Valid BLS12381.twist BLS12381.g2Base :=
+  valid_of_facts (c := BLS12381.twist) (P := BLS12381.g2Base) bls_base_reduced bls_base_on
 
 theorem bn256_order_lit : Fp2.smul BN256.twist BN256.n bn256BaseLit = none := by
   rw [← bn256_base_eq]; exact bn256_order
